@@ -1,0 +1,5 @@
+//go:build !verif
+
+package metrics
+
+func vgate(string) {}
